@@ -83,8 +83,16 @@ impl TaskPool {
         // idle workers already notified for an earlier task still count as waiting
         // until they wake up: only the surplus over the queued tasks is available
         if self.sharing.waiting_tasks.load(Ordering::Acquire) <= queue.len() {
+            #[cfg(tiny_http_verif)]
+            simrt::probe(if self.sharing.waiting_tasks.load(Ordering::Acquire) == 0 {
+                "pool.dispatch.new_thread.no_idle_worker"
+            } else {
+                "pool.dispatch.new_thread.idle_workers_already_notified"
+            });
             self.add_thread(Some(code));
         } else {
+            #[cfg(tiny_http_verif)]
+            simrt::probe("pool.dispatch.enqueue");
             queue.push_back(code);
             self.sharing.condvar.notify_one();
         }
@@ -126,6 +134,14 @@ impl TaskPool {
                                 !waitres.timed_out()
                             };
 
+                        #[cfg(tiny_http_verif)]
+                        if !received {
+                            simrt::probe(if todo.is_empty() {
+                                "pool.worker.retire"
+                            } else {
+                                "pool.worker.timed_out_but_task_queued"
+                            });
+                        }
                         if !received && todo.is_empty() {
                             return;
                         }
